@@ -402,6 +402,83 @@ def snap(ctx: Ctx) -> None:
             ctx.R.note("SNAP-5: rejection on exhaustion is only implicit (UnboundLocalError)")
         else:
             ctx.R.fail("SNAP-5", mod, loop, "when every attempt was inconsistent the function continues with the last (inconsistent) attempt instead of rejecting it", construct="for-else raise")
+    # SNAP-6 nothing computed in one attempt is reused by the next: every local that is assigned inside
+    # the retry loop must be (re)assigned in each iteration before it is read
+    loop_assigned = set()
+    for x in ast.walk(loop):
+        if isinstance(x, ast.Name) and isinstance(x.ctx, ast.Store):
+            loop_assigned.add(x.id)
+    loop_assigned.discard("_")
+    all_locals = {x.id for x in walk_scope(fn) if isinstance(x, ast.Name) and isinstance(x.ctx, ast.Store)}
+    header = g.node_of(loop)
+    body_first = g.node_of(loop.body[0])
+    # definite assignment restricted to one iteration: start at the first body statement with everything
+    # assigned outside the loop available, and the loop-assigned names unavailable
+    IN = {n.idx: None for n in g.nodes}
+    start = frozenset((all_locals | {a.arg for a in fn.args.args}) - loop_assigned)
+    IN[body_first.idx] = start
+    work = [body_first]
+    from ..dataflow import _stores
+    in_loop = {g.node_of(st).idx for st in ast.walk(loop) if isinstance(st, ast.stmt) and id(st) in g.by_ast} | \
+              {n.idx for n in g.nodes if n.ast is not None and any(n.ast is h for h in ast.walk(loop))}
+    def defs(n):
+        if n.ast is None:
+            return set()
+        if n.kind == "stmt":
+            return _stores(n.ast)
+        if n.kind == "for":
+            return _stores(n.ast.target)
+        if n.kind == "handler":
+            return {n.ast.name} if n.ast.name else set()
+        return set()
+    while work:
+        n = work.pop()
+        cur = IN[n.idx]
+        out = frozenset(cur | defs(n))
+        for succ in n.succ:
+            if succ.idx == header.idx or succ.idx not in in_loop and succ.ast is not None and not any(succ.ast is x for x in ast.walk(loop)):
+                continue
+            if succ.ast is None and succ.kind in ("exit", "raise"):
+                continue
+            val = cur if (succ.idx in n.exc_succ and n.kind != "handler") else out
+            if n.kind == "for" and succ.idx not in n.exc_succ:
+                normal = [x for x in n.succ if x.idx not in n.exc_succ]
+                if normal and succ is not normal[0]:
+                    val = cur
+            old = IN[succ.idx]
+            new_ = val if old is None else (old & val)
+            if new_ != old:
+                IN[succ.idx] = new_
+                work.append(succ)
+    carried = []
+    for n in g.nodes:
+        cur = IN[n.idx]
+        if cur is None or n.ast is None or not any(n.ast is x for x in ast.walk(loop)):
+            continue
+        exprs = []
+        if n.kind in ("if", "while"):
+            exprs = [n.ast.test]
+        elif n.kind == "for":
+            exprs = [n.ast.iter]
+        elif n.kind == "stmt":
+            exprs = [n.ast]
+        for e in exprs:
+            for x in ast.walk(e):
+                if isinstance(x, ast.Name) and isinstance(x.ctx, ast.Load) and x.id in loop_assigned and x.id not in cur:
+                    carried.append(x)
+    if carried:
+        for x in carried[:3]:
+            ctx.R.fail("SNAP-6", mod, x, f"`{x.id}` is read in a retry attempt before that attempt has assigned it: its value comes from a previous attempt (an earlier instruction position), "
+                       "so the snapshot mixes two positions instead of being consistent with one or rejected", construct=f"{x.id} carried across attempts in {norm(_stmt(mod, x))[:80]}")
+    else:
+        ctx.R.ok("SNAP-6", f"{len(loop_assigned)} locals assigned in the retry loop are all re-assigned in each attempt before being read (nothing is carried over)")
+    # details.stack is reset in each attempt before it is appended to
+    resets = [st for st in ast.walk(tr) if isinstance(st, ast.Assign) and norm(st.targets[0]) == "details.stack" and norm(st.value) == "[]"]
+    apps = [st for st in ast.walk(tr) if isinstance(st, ast.Expr) and isinstance(st.value, ast.Call) and norm(st.value.func) == "details.stack.append"]
+    if resets and apps and all(g.dominates(g.node_of(resets[0]), g.node_of(a)) for a in apps) and in_body(tr.body, resets[0], mod):
+        ctx.R.ok("SNAP-6", "details.stack is reset at the start of each attempt's slot loop")
+    else:
+        ctx.R.fail("SNAP-6", mod, tr, "details.stack must be reset inside each attempt before slots are appended: otherwise a retried attempt appends to the slots of the failed one", construct="details.stack = [] per attempt")
     # acceptance breaks out of the loop
     if not any(isinstance(s, ast.Break) for s in after):
         ctx.R.fail("SNAP-5", mod, loop, "a consistent snapshot must end the retry loop", construct="break after acceptance")
